@@ -1536,7 +1536,18 @@ def _is_mut_ref(a):
         r = strip(a[1])
         n = 0
         while isinstance(r, tuple) and r and n < 12 and (r[0] in ('field', 'index') or (
-                r[0] == 'call' and r[1] in ('index_mut', 'view_bits_mut', 'deref_mut', 'as_mut', 'as_mut_slice', 'borrow_mut') and r[3])):
+                r[0] == 'call' and r[1] in ('index_mut', 'view_bits_mut', 'deref_mut', 'as_mut', 'as_mut_slice', 'borrow_mut', 'split_at_mut') and r[3])):
+            r = strip(r[1]) if r[0] != 'call' else strip(r[3][0])
+            n += 1
+        return isinstance(r, tuple) and r and r[0] in ('self', 'param', 'var', 'input', 'sink', 'elem', 'mutvar')
+    # a half of `x.split_at_mut(n)` / `x.split_first_mut()` (already a `&mut` into x)
+    b = strip(a)
+    if isinstance(b, tuple) and b and b[0] == 'field' and isinstance(strip(b[1]), tuple) and strip(b[1]) and strip(b[1])[0] == 'call' and \
+            strip(b[1])[1] in ('split_at_mut', 'split_at_mut_checked') and strip(b[1])[3]:
+        r = strip(strip(b[1])[3][0])
+        n = 0
+        while isinstance(r, tuple) and r and n < 12 and (r[0] in ('field', 'index') or (
+                r[0] == 'call' and r[1] in ('index_mut', 'deref_mut', 'as_mut', 'as_mut_slice', 'borrow_mut') and r[3])):
             r = strip(r[1]) if r[0] != 'call' else strip(r[3][0])
             n += 1
         return isinstance(r, tuple) and r and r[0] in ('self', 'param', 'var', 'input', 'sink', 'elem', 'mutvar')
